@@ -27,7 +27,7 @@ Proof. reflexivity. Qed.
 (* the argument types the model decodes are those of the bindings bridgesync/downloader.go imports (ABI JSON of the pinned
    cdk-contracts-tooling version), for claimAsset and claimMessage of both generations *)
 Definition aty_name (t : aty) : String.string :=
-  match t with TProof => "bytes32[32]" | TU256 => "uint256" | TB32 => "bytes32" | TU32 => "uint32" | TAddr => "address" | TBytes => "bytes" end%string.
+  match t with TProof => "bytes32[32]" | TU256 => "uint256" | TB32 => "bytes32" | TU32 => "uint32" | TU8 => "uint8" | TAddr => "address" | TBytes => "bytes" end%string.
 Example C20_src_abi_types_are_model :
   src_c20_abi_etrog_claim_asset = map aty_name etrog_tys /\ src_c20_abi_etrog_claim_message = map aty_name etrog_tys /\
   src_c20_abi_pre_claim_asset = map aty_name pre_tys /\ src_c20_abi_pre_claim_message = map aty_name pre_tys.
